@@ -6,4 +6,8 @@ EXTENDS EcCurves
 ASSUME \A i \in 1..Len(Curves8) : LET c == Curves8[i]  s == GroupSeq(c) IN
           /\ Cardinality(AffinePoints(c)) + 1 = Order(c)
           /\ { s[j] : j \in 1..Len(s) } = AffinePoints(c) \cup { Inf }
+\* double-and-add agrees with the k-fold sum (the definition) - here for the first multiples of every curve,
+\* for every multiple of every point of the 8-bit curves in EcGenPairs (Heavy) and along the walks of EcGenWalk
+ASSUME \A i \in 1..Len(AllCurves) : \A k \in 0..40 :
+          Mul(AllCurves[i], k, T(AllCurves[i])) = MulSlow(AllCurves[i], k, T(AllCurves[i]))
 =============================================================================
